@@ -149,7 +149,7 @@ class IterCheck(PropCheck):
 class C09(IterCheck):
     pid = "C09"
     prop_module = "SigHook.Props.C09"
-    extra_modules = ("SigHook.Props.C09q", "SigHook.Props.C09c", "SigHook.Props.C09qc")
+    extra_modules = ("SigHook.Props.C09q", "SigHook.Props.C09c", "SigHook.Props.C09qc", "SigHook.Props.C09d", "SigHook.Props.C09e")
 
 
 class C10(IterCheck):
